@@ -179,6 +179,46 @@ pub fn run(suite: &str, thorough: bool, seed: u64, shard: usize, nshards: usize,
                 }
             }
         }
+        // C10: exhaustive interfaces of up to 2 (quick) / 3 (thorough) methods:
+        // interface oneway x per-method oneway x return type over the 17 categories
+        "oneway" => {
+            let maxm = if thorough { 3 } else { 2 };
+            let per = CATEGORY_TYPES.len() * 2;
+            let mut idx = 0usize;
+            for io in [false, true] {
+                for nm in 1..=maxm {
+                    let total = per.pow(nm as u32);
+                    for code in 0..total {
+                        idx += 1;
+                        if !mine(idx) {
+                            continue;
+                        }
+                        let mut c = code;
+                        let mut body = String::new();
+                        for k in 0..nm {
+                            let sel = c % per;
+                            c /= per;
+                            let (mo, ty) = (sel % 2 == 1, CATEGORY_TYPES[sel / 2].1);
+                            if k == 1 {
+                                body.push_str("    const int C = 1;\n");
+                            }
+                            // every third case repeats the name of the first method
+                            let name = if idx % 3 == 0 { 0 } else { k };
+                            body.push_str(&format!("    {}{} m{}(int a);\n", if mo { "oneway " } else { "" }, ty, name));
+                        }
+                        let main = format!(
+                            "package m;\n{}\n{}interface Main {{\n{}}}\n",
+                            CATEGORY_PRELUDE,
+                            if io { "oneway " } else { "" },
+                            body
+                        );
+                        let mut files = category_defs();
+                        files.push(("main".to_owned(), main));
+                        em.case(idx as u64, validate_case(&files));
+                    }
+                }
+            }
+        }
         _ => {
             eprintln!("unknown suite {}", suite);
             std::process::exit(2);
